@@ -720,6 +720,127 @@ hc_end(void)
 	}
 }
 
+// ------------------------------------------------------------------ ids (spec data/Ids.tla)
+// sockets, contexts, dialers, listeners: every id handed out during the life of this process is remembered
+#define IDS_MAXLIVE 8
+#define IDS_EVER 65536
+static struct {
+	int      n;
+	uint32_t id[IDS_MAXLIVE];
+	union {
+		nng_socket   s;
+		nng_ctx      c;
+		nng_dialer   d;
+		nng_listener l;
+	} h[IDS_MAXLIVE];
+	uint32_t *ever;
+	int       never;
+} idk[4];
+static nng_init_params ids_params;
+static long long       ids_after_fini = -1;
+static int
+ids_kind(const char *k)
+{
+	return !strcmp(k, "sock") ? 0 : !strcmp(k, "ctx") ? 1 : !strcmp(k, "dialer") ? 2 : 3;
+}
+static int
+ids_close_handle(int k, int i)
+{
+	switch (k) {
+	case 0: return nng_socket_close(idk[k].h[i].s);
+	case 1: return nng_ctx_close(idk[k].h[i].c);
+	case 2: return nng_dialer_close(idk[k].h[i].d);
+	default: return nng_listener_close(idk[k].h[i].l);
+	}
+}
+static void
+do_ids(char *act, char *kind, long a2)
+{
+	int k = ids_kind(kind), rv = 0;
+	if (!strcmp(act, "init")) {
+		for (int j = 0; j < 4; j++) {
+			idk[j].n = 0;
+		}
+		return;
+	}
+	if (!strcmp(act, "open")) {
+		uint32_t id = 0;
+		int      i = idk[k].n, fresh = 1, uniq = 1;
+		if (k == 0) {
+			rv = nng_rep0_open(&idk[k].h[i].s);
+			id = (uint32_t) nng_socket_id(idk[k].h[i].s);
+		} else if (k == 1) {
+			rv = nng_ctx_open(&idk[k].h[i].c, idk[0].h[0].s);
+			id = (uint32_t) nng_ctx_id(idk[k].h[i].c);
+		} else if (k == 2) {
+			rv = nng_dialer_create(&idk[k].h[i].d, idk[0].h[0].s, "inproc://ids-d");
+			id = (uint32_t) nng_dialer_id(idk[k].h[i].d);
+		} else {
+			rv = nng_listener_create(&idk[k].h[i].l, idk[0].h[0].s, "inproc://ids-l");
+			id = (uint32_t) nng_listener_id(idk[k].h[i].l);
+		}
+		if (rv == 0) {
+			if (idk[k].ever == NULL) {
+				idk[k].ever = calloc(IDS_EVER, sizeof(uint32_t));
+			}
+			for (int j = 0; j < idk[k].never; j++) {
+				fresh &= idk[k].ever[j] != id;
+			}
+			for (int j = 0; j < i; j++) {
+				uniq &= idk[k].id[j] != id;
+			}
+			if (idk[k].never < IDS_EVER) {
+				idk[k].ever[idk[k].never++] = id;
+			}
+			idk[k].id[i] = id;
+			idk[k].n++;
+		}
+		o("{\"out\":{\"rv\":\"%s\",\"fresh\":%s,\"inrange\":%s,\"unique\":%s}", rv == 0 ? "ok" : nng_strerror(rv), fresh ? "true" : "false",
+		    (rv == 0 && id >= 1 && id <= 0x7fffffffu) ? "true" : "false", uniq ? "true" : "false");
+	} else if (!strcmp(act, "close")) {
+		int i = (int) a2 - 1, rv2;
+		rv  = ids_close_handle(k, i);
+		rv2 = ids_close_handle(k, i); // the handle is stale now: it must be refused, whatever was opened meanwhile
+		for (int j = i; j + 1 < idk[k].n; j++) {
+			idk[k].id[j] = idk[k].id[j + 1];
+			idk[k].h[j]  = idk[k].h[j + 1];
+		}
+		idk[k].n--;
+		o("{\"out\":{\"rv\":\"%s\",\"stale\":\"%s\"}", rv == 0 ? "ok" : nng_strerror(rv),
+		    (rv2 == NNG_ECLOSED || rv2 == NNG_ENOENT) ? "refused" : rv2 == 0 ? "accepted" : nng_strerror(rv2));
+	} else if (!strcmp(act, "cycle")) {
+		nng_fini();
+		rv = nng_init(&ids_params);
+		o("{\"out\":{\"rv\":\"%s\"}", rv == 0 ? "ok" : nng_strerror(rv));
+	} else {
+		fprintf(stderr, "bad ids action %s\n", act);
+		exit(3);
+	}
+	o(",\"obs\":{\"nlive\":{\"sock\":%d,\"ctx\":%d,\"dialer\":%d,\"listener\":%d}}}", idk[0].n, idk[1].n, idk[2].n, idk[3].n);
+	emit();
+}
+static void
+ids_end(void)
+{
+	for (int k = 3; k >= 0; k--) {
+		while (idk[k].n > 0) {
+			ids_close_handle(k, idk[k].n - 1);
+			idk[k].n--;
+		}
+	}
+	o("\"fin\":0");
+	// the balance of an ids walk is taken where it is exact: after nng_fini nothing may be left (the static id tables are created
+	// lazily and would otherwise look like a leak of the walk that first used them)
+	nng_fini();
+	ids_after_fini = (long long) acct_live_blocks();
+	if (ids_after_fini != 0) {
+		acct_dump_live(8);
+	}
+	if (nng_init(&ids_params) != 0) {
+		abort();
+	}
+}
+
 // ------------------------------------------------------------------ main loop
 int
 main(int argc, char **argv)
@@ -732,6 +853,7 @@ main(int argc, char **argv)
 
 	memset(&p, 0, sizeof(p));
 	acct_fill_params(&p);
+	ids_params = p;
 	if (nng_init(&p) != 0) {
 		fprintf(stderr, "nng_init failed\n");
 		return 3;
@@ -773,12 +895,14 @@ main(int argc, char **argv)
 				o("\"fin\":0");
 			} else if (!strcmp(cur, "chunk")) {
 				hc_end();
+			} else if (!strcmp(cur, "ids")) {
+				ids_end();
 			} else {
 				o("\"fin\":0");
 			}
 			(void) mism0;
 			(void) bad0;
-			o(",\"leak\":%lld,\"mism\":%llu,\"badfree\":%llu}", (long long) acct_live_blocks() - (long long) live0,
+			o(",\"leak\":%lld,\"mism\":%llu,\"badfree\":%llu}", !strcmp(cur, "ids") ? ids_after_fini : (long long) acct_live_blocks() - (long long) live0,
 			    (unsigned long long) acct_size_mismatches(), (unsigned long long) acct_bad_frees());
 			printf("X %ld %s\n", walk, ob);
 			fflush(stdout);
@@ -799,6 +923,11 @@ main(int argc, char **argv)
 			do_id(act, a1, a2);
 		} else if (!strcmp(obj, "msg")) {
 			do_msg(act, a1, a2);
+		} else if (!strcmp(obj, "ids")) {
+			char kind[32] = "";
+			long idx      = 0;
+			sscanf(line, "%*s %*s %31s %ld", kind, &idx);
+			do_ids(act, kind, idx);
 		} else if (!strcmp(obj, "chunk")) {
 			char tok[32] = "";
 			sscanf(line, "%*s %*s %31s", tok);
